@@ -22,9 +22,9 @@ import (
 var strippedAlways = []string{"unsigned", "age_ts", "outlier", "destinations"}
 
 const (
-	numMarker   = 424242     // injected where a number is needed (depth, origin_server_ts)
-	ageMarker   = 987654321  // injected age_ts
-	stickyMilli = 3600000    // injected sticky duration
+	numMarker   = 424242    // injected where a number is needed (depth, origin_server_ts)
+	ageMarker   = 987654321 // injected age_ts
+	stickyMilli = 3600000   // injected sticky duration
 	pseudoIDVer = "org.matrix.msc4014"
 )
 
@@ -269,7 +269,7 @@ func runC04(r *sim.Run) {
 			content["join_authorised_via_users_server"] = "@carol:" + string(auth.Name)
 			extraSigners = append(extraSigners, auth)
 		}
-		if ms == "invite" && t.Bool() {
+		if ms == "invite" && t.Intn(4) != 0 {
 			content["third_party_invite"] = map[string]any{"display_name": "b...@example.org",
 				"signed": map[string]any{"mxid": sk, "token": "tok", "signatures": map[string]any{"id.example": map[string]any{"ed25519:0": "c2ln"}}}}
 		}
